@@ -33,6 +33,8 @@ type soupCase struct {
 	Steps   int          `json:"steps"`
 	Intr    []soupIntr   `json:"intr,omitempty"`
 	Actions []soupAction `json:"actions,omitempty"`
+	// NilIO (C10 only): the CPU has no I/O device
+	NilIO bool `json:"nil_io,omitempty"`
 }
 
 // modelLen asks the model how many bytes the instruction at the head of b has.
